@@ -161,13 +161,13 @@ def _hits(n, sym, model=None):
     return hits
 
 
-def _hit_arr(hits, obj):
+def _hit_arr(hits, obj, dt=1):
     import strax
 
     D = np.dtype(strax.hit_dtype)
     a = arrays.make(D, len(hits)) if obj else np.zeros(len(hits), D)
     for i, h in enumerate(hits):
-        a["time"][i], a["length"][i], a["dt"][i], a["area"][i], a["channel"][i] = h["time"], h["length"], 1, h["area"], h["channel"]
+        a["time"][i], a["length"][i], a["dt"][i], a["area"][i], a["channel"][i] = h["time"], h["length"], dt, h["area"], h["channel"]
     return a
 
 
@@ -491,12 +491,60 @@ def nat_merge_down(params, model):
     return {"ok": label is None, "detail": label or "merged peak spans its constituents; area conserved", "label": label}
 
 
+# ---------------------------------------------------------------------------- find_peaks: sampling grid
+def _grid_inputs(val):
+    return dict(t=val("t", 0, 1000), l=val("l", 1, 20), le=val("le", 0, 30), re=val("re", 0, 30))
+
+
+def sym_peakgrid(dt):
+    """one hit with dt > 1 and extensions that need not be multiples of dt: the peak still spans the hit plus its
+    extensions (it may overshoot by less than one sample)"""
+    import strax
+
+    v = _grid_inputs(lambda n, lo, hi: fresh_int(n, lo, hi))
+    PD = np.dtype(strax.peak_dtype(n_channels=2, n_sum_wv_samples=4))
+    hits = [dict(time=v["t"], length=v["l"], area=5, channel=0)]
+    peaks = strax.find_peaks(_hit_arr(hits, True, dt), np.array([1, 2]), gap_threshold=100, left_extension=v["le"],
+                             right_extension=v["re"], min_area=0, min_channels=1, max_duration=10**7,
+                             result_dtype=arrays.obj_dtype(PD))
+    prove(len(peaks) == 1, "peakgrid:count")
+    p = peaks[0]
+    # the length field is an integer number of samples: what is stored is the truncated quotient
+    length = core.trunc(p["length"]) if isinstance(p["length"], core.SymReal) else p["length"]
+    end = p["time"] + length * dt
+    want = v["t"] + v["l"] * dt + v["re"]
+    prove(p["time"] == v["t"] - v["le"], "peakgrid:start is not hit start - left extension")
+    prove(sand(end >= want, end < want + dt), f"peakgrid:peak (dt {dt}) does not span its hit plus the right extension")
+    return "ok"
+
+
+def nat_peakgrid(params, model):
+    import strax
+
+    dt = params["dt"]
+    v = _grid_inputs(lambda n, lo, hi: model.get(n, lo) or lo if n == "l" else (model.get(n, 0) or 0))
+    PD = np.dtype(strax.peak_dtype(n_channels=2, n_sum_wv_samples=4))
+    hits = [dict(time=v["t"], length=v["l"], area=5, channel=0)]
+    peaks = strax.find_peaks(_hit_arr(hits, False, dt), np.array([1., 2.]), gap_threshold=100, left_extension=v["le"],
+                             right_extension=v["re"], min_area=0, min_channels=1, max_duration=10**7, result_dtype=PD)
+    p = peaks[0]
+    end = int(p["time"]) + int(p["length"]) * dt
+    want = v["t"] + v["l"] * dt + v["re"]
+    ok = len(peaks) == 1 and int(p["time"]) == v["t"] - v["le"] and want <= end < want + dt
+    return {"ok": bool(ok), "label": f"peakgrid:peak (dt {dt}) does not span its hit plus the right extension",
+            "detail": f"hit [{v['t']}, {v['t'] + v['l'] * dt}) dt {dt}, extensions {v['le']}/{v['re']}: peak [{int(p['time'])}, {end}), "
+                      f"hit end + right extension = {want}"}
+
+
 def sym_twin():
     sym_sma(3, 1)
     prove(False, "twin:reachable")
 
 
 MUTANTS = [
+    dict(name="peak length truncated on a coarse grid (original defect F-C19h)", file="strax/processing/peak_building.py", only="peakgrid",
+         old='            p["length"] = (peak_endtime - p["time"] + right_extension + dt - 1) // dt',
+         new='            p["length"] = (peak_endtime - p["time"] + right_extension) // dt'),
     dict(name="max_duration cut counts the left extension twice (original defect F-C19f)", file="strax/processing/peak_building.py",
          only="peaks", old="                + next_hit[\"dt\"] * next_hit[\"length\"]\n                + right_extension",
          new="                + next_hit[\"dt\"] * next_hit[\"length\"]\n                + left_extension\n                + right_extension"),
@@ -510,7 +558,7 @@ MUTANTS = [
          old='            next_hit_is_far = next_hit["time"] - peak_endtime >= gap_threshold',
          new='            next_hit_is_far = next_hit["time"] - peak_endtime > gap_threshold'),
     dict(name="peak end forgets the right extension", file="strax/processing/peak_building.py", only="peaks",
-         old='            p["length"] = (peak_endtime - p["time"] + right_extension) / dt', new='            p["length"] = (peak_endtime - p["time"]) / dt'),
+         old='            p["length"] = (peak_endtime - p["time"] + right_extension + dt - 1) // dt', new='            p["length"] = (peak_endtime - p["time"] + dt - 1) // dt'),
     dict(name="replace_merged drops the last merged interval", file="strax/processing/peak_merging.py", only="replace",
          old="    if skip_end == n_orig:", new="    if False:"),
     dict(name="original F-C19: sample 0 never leaves the window", file="strax/processing/peak_splitting.py", only="sma",
@@ -537,6 +585,8 @@ OBLIGATIONS = [
        nat_merge_down, setup=_setup, witnesses=1,
        doc="merge_peaks with down-sampling, then replace_merged: the merged peak reaches the end of its last constituent, "
            "no constituent survives, total area conserved"),
+    Ob("peakgrid", sym_peakgrid, lambda tier: [dict(dt=1), dict(dt=2), dict(dt=10)], nat_peakgrid, setup=_setup, witnesses=2,
+       doc="find_peaks on a coarser sampling grid: the peak spans hit + extensions up to one sample"),
     Ob("hdr", sym_hdr, lambda tier: [dict(n=n, B=B) for n, B in ((3, 1), (5, 2), (6, 2), (7, 3))], nat_hdr, setup=_setup,
        witnesses=2, doc="_process_intervals_numba (highest_density_region): the intervals are the maximal runs of "
                         "samples above a symbolic level, or the overflow flag when they do not fit the buffer; nothing "
